@@ -41,7 +41,7 @@ def _fl(lo, hi):
 def _discrete_values(draw):
   flavour = draw(st.sampled_from(
       ['ints', 'integral_floats', 'fractional', 'mixed', 'mixed',
-       'big_integral']))
+       'big_integral', 'near_integral']))
   n = draw(st.sampled_from([1, 2, 3, 5]))
   if flavour == 'ints':
     vals = draw(st.lists(st.integers(-20, 200), min_size=n, max_size=n,
@@ -56,6 +56,13 @@ def _discrete_values(draw):
   elif flavour == 'big_integral':
     vals = draw(st.lists(st.sampled_from(
         [1e6, 2.0 ** 40, 1e15, -3e9, 123456789.0, 2.0 ** 53]),
+                         min_size=1, max_size=3, unique=True))
+  elif flavour == 'near_integral':
+    # fractional values within float round-off / 1e-9 relative of an integer:
+    # they are NOT integers and must be presented as floats
+    vals = draw(st.lists(st.sampled_from(
+        [28.999999999999996, 0.1 + 0.2 + 2.7, 2500000000.5, 1e10 + 0.25,
+         123456789.000001, 7.000000001, -3.9999999999, 1e12 + 0.5]),
                          min_size=1, max_size=3, unique=True))
   else:  # mixed: at least one integral and one fractional value
     a = [float(v) for v in draw(st.lists(st.integers(-20, 200), min_size=1,
